@@ -60,6 +60,10 @@ async def _process_tick(self: Any, tick: Any) -> Any:
     if _H is not None:
         _H.pre_state = self.state  # state object before the reducer runs (never mutated afterwards)
         _H.pre_runner = self
+        if _H.lag_before_failed_result and getattr(tick, "type", "") == "step_result" and any(
+                type(r).__name__ == "StepWorkerFailed" for r in tick.result):
+            # the loop was busy with something else when the step failed: it gets to the failure this much later
+            _H.loop.advance_busy(_H.lag_before_failed_result)
     res = await _orig_process_tick(self, tick)
     h = _H
     if h is not None and h.busy_ticks_left > 0 and self.scheduled_wakeups and res is None:
@@ -192,6 +196,7 @@ class Harness:
         self.stream_error: Any = None
         self.on_publish: list[Callable[..., None]] = []
         self.on_tick: list[Callable[..., None]] = []
+        self.lag_before_failed_result = 0.0  # seconds between a step's failure and the loop getting to its result tick
         self.busy_ticks_left = 0  # RunConfig.busy_ticks: how many ticks may keep the loop busy past the next wake-up
         self.busy_until = 0.0
         self.invocations: list[Invocation] = []
